@@ -239,6 +239,13 @@ class SimDeadlock(Exception):
     pass
 
 
+def nthreads_of(plan: dict) -> int:
+    """Threads = the first n recipes; the rest (plan['chain']: thread -> recipe indices) are documents a worker
+    thread encodes AFTER its first one, as a pooled worker does."""
+    chained = sum(len(v) for v in (plan.get("chain") or {}).values())
+    return len(plan["recipes"]) - chained
+
+
 class Sched:
     def __init__(self, n: int, plan: dict, total_steps_hint: int):
         self.n = n
@@ -275,6 +282,8 @@ class Sched:
         dec = plan["decider"]
         self.kind = dec["kind"] if plan.get("decisions") is None else "explicit"
         self.explicit = {int(s): int(t) for s, t in (plan.get("decisions") or [])}
+        self.chain_switch = plan.get("chain_switch")  # {"to": thread, "then": [[steps later, thread], ...]}
+        self._chain_done = False
         hint = max(1, total_steps_hint)
         if self.kind in ("strata", "one"):
             self.points = {}
@@ -377,6 +386,22 @@ class Sched:
         if nxt != i:
             self.switch(i, nxt, frame)
 
+    def chain_boundary(self, i):
+        """A worker thread has finished one document and is about to pick up its next one."""
+        self.step += 1
+        self.thread_steps[i] += 1
+        self.last_event = time.monotonic()
+        cs = self.chain_switch
+        if cs and not self._chain_done and self.kind == "explicit" and self.state[cs["to"]] == "ready" and cs["to"] != i:
+            self._chain_done = True
+            for j, t in cs.get("then") or []:
+                self.explicit[self.step + int(j)] = int(t)
+            self.switch(i, cs["to"])
+            return
+        nxt = self.choose(i)
+        if nxt != i:
+            self.switch(i, nxt)
+
     def switch(self, i, nxt, frame=None):
         from . import boot, state
 
@@ -448,7 +473,8 @@ def build_docs(plan: dict, figdir: str) -> list:
     specs hold the SAME component object (a caller re-using its RTFFootnote, RTFPage ... across reports);
     plan['same_doc'][i] = j makes thread i encode the very document object of thread j."""
     recs = plan["recipes"]
-    share = plan.get("share") or [None] * len(recs)
+    share = list(plan.get("share") or [None] * len(recs))
+    share += [None] * (len(recs) - len(share))
     same = plan.get("same_doc") or {}
     pool = R.Pool()
     docs: list = []
@@ -498,7 +524,8 @@ def exec_schedule(arg) -> dict:
     else:
         R.warmup()
     recs = plan["recipes"]
-    n = len(recs)
+    n = nthreads_of(plan)
+    chain = {int(k): list(v) for k, v in (plan.get("chain") or {}).items()}
     docs = build_docs(plan, figdir)
     tmode = plan.get("trace_mode")
     mult = 2 if tmode == "callret" else 1
@@ -508,7 +535,7 @@ def exec_schedule(arg) -> dict:
             return (ref.get("ncalls") or 0) + (ref.get("nlines") or 0)
         return (ref.get("ncalls") or 0) * mult
 
-    hint = sum(nbound(refs[str(i)]) for i in range(n))
+    hint = sum(nbound(refs[str(i)]) for i in range(len(recs)))
     sched = Sched(n, plan, hint)
     if plan.get("list_hot_steps"):
         from . import state as _state
@@ -526,6 +553,7 @@ def exec_schedule(arg) -> dict:
     want_line = tmode == "line"
     hot = set(plan.get("hot_sites") or []) if tmode == "hot" else None
     outcomes: list = [None] * n
+    chained_outcomes: dict = {}
     abort = plan.get("abort")
     abort_fired = [None]
 
@@ -590,6 +618,19 @@ def exec_schedule(arg) -> dict:
                     sys.settrace(None)
                     sched.inside[i] = False
                 outcomes[i] = o
+            for ri in chain.get(i, []):
+                # the same worker thread picks up its next document (pooled workers): a scheduling point of its own
+                sched.chain_boundary(i)
+                if docs[ri] is None:
+                    chained_outcomes[(i, ri)] = {"k": "construct_failed"}
+                    continue
+                sched.inside[i] = True
+                sys.settrace(tr if docs[i] is not None else make_tracer(i))
+                try:
+                    chained_outcomes[(i, ri)] = R.outcome_of(docs[ri].rtf_encode)
+                finally:
+                    sys.settrace(None)
+                    sched.inside[i] = False
         except BaseException as e:  # noqa: BLE001
             outcomes[i] = {"k": "harness", "type": type(e).__name__, "msg": str(e)[:200]}
         finally:
@@ -632,6 +673,13 @@ def exec_schedule(arg) -> dict:
         text = o.pop("_text", None) if isinstance(o, dict) else None
         ent = {"thread": i, "outcome": R.strip(o), "steps": sched.thread_steps[i]}
         ref = refs[str(i)]["encode"]
+        if text is not None and ref is not None and not R.same_outcome(ent["outcome"], ref):
+            ent["text"] = text
+        out_threads.append(ent)
+    for (i, ri), o in sorted(chained_outcomes.items()):
+        text = o.pop("_text", None) if isinstance(o, dict) else None
+        ent = {"thread": i, "doc": ri, "outcome": R.strip(o), "steps": sched.thread_steps[i]}
+        ref = refs[str(ri)]["encode"]
         if text is not None and ref is not None and not R.same_outcome(ent["outcome"], ref):
             ent["text"] = text
         out_threads.append(ent)
@@ -899,7 +947,7 @@ def judge(plan: dict, res: dict, refs: dict) -> list:
         i = ent["thread"]
         if ab and ab["thread"] == i:
             continue  # an aborted thread is never judged on its own result
-        ref = refs[str(i)]
+        ref = refs[str(ent.get("doc", i))]
         oc = ent["outcome"]
         if ref["construct"]["k"] != "ok":
             continue
@@ -917,11 +965,13 @@ def judge(plan: dict, res: dict, refs: dict) -> list:
             else:
                 cls = "other_exception"
             v = {"class": cls, "thread": i, "observed": oc, "expected": re_}
+            if "doc" in ent:
+                v["doc"] = ent["doc"]  # a later document of a reused worker thread
             if "text" in ent:
                 v["_text"] = ent["text"]
             out.append(v)
     for v in out:
-        v["nthreads"] = len(plan["recipes"])
+        v["nthreads"] = nthreads_of(plan)
         v["paths"] = [r["kind"] for r in plan["recipes"]]
         v["after_abort"] = bool(ab)
         v["switches"] = len(res["decisions"])
@@ -930,7 +980,7 @@ def judge(plan: dict, res: dict, refs: dict) -> list:
 
 def signature(v: dict) -> dict:
     return {"class": v["class"], "nthreads": v["nthreads"],
-            "victim_path": v["paths"][v["thread"]] if v.get("thread") is not None else None,
+            "victim_path": v["paths"][v.get("doc", v["thread"])] if v.get("thread") is not None else None,
             "after_abort": v["after_abort"]}
 
 
@@ -1106,7 +1156,7 @@ def _report_violation(plan, refs, res, idx, ws, max_minimise, vs, out):
             for _s, _f, t, _site, _c in res["switch_log"]:
                 if t not in order:
                     order.append(t)
-            first = plan["first"] % len(plan["recipes"])
+            first = plan["first"] % nthreads_of(plan)
             order = [first] + [t for t in order if t != first]
             order += [i for i in range(len(plan["recipes"])) if i not in order]
             seq = core.run_in_child(sequential_control, {"plan": plan, "figdir": ws["figdir"], "order": order})
@@ -1131,6 +1181,16 @@ def job(j: dict) -> dict:
         # run_in_executor wrappers do it, inside a copy of the launching context (own stream: older seeds keep their plans)
         plan["launch"] = core.rng_for(j["root"], PROP, "launch", idx).choice(["plain", "ctxcopy"])
         plan["cold"] = core.rng_for(j["root"], PROP, "cold", idx).random() < 0.25
+        crng = core.rng_for(j["root"], PROP, "chain", idx)
+        if crng.random() < 0.2 and not plan.get("same_doc"):
+            # pooled workers: one thread encodes a second document afterwards - an equal-valued copy of ANOTHER
+            # thread's document (same palette, same content), or of its own
+            n0 = len(plan["recipes"])
+            t_ = crng.randrange(n0)
+            src = crng.randrange(n0)
+            plan["recipes"].append(R_json_copy(plan["recipes"][src]))
+            plan["chain"] = {str(t_): [n0]}
+            plan["first"] = plan["first"] % n0
         arng = core.rng_for(j["root"], PROP, "ambient", idx)
         if arng.random() < 0.2:
             # the caller's process has non-default settings (display configuration of the data-frame library, decimal
@@ -1155,7 +1215,7 @@ def summarise(plan, res, refs, idx) -> dict:
     abstract = digest([(f, t, site) for _s, f, t, site, _c in sl])
     return {
         "idx": idx, "digest": run_digest(res), "steps": res["steps"],
-        "nthreads": len(plan["recipes"]), "kind": plan["decider"]["kind"] if plan.get("decisions") is None else "explicit",
+        "nthreads": nthreads_of(plan), "chained": bool(plan.get("chain")), "kind": plan["decider"]["kind"] if plan.get("decisions") is None else "explicit",
         "switches": len(sl), "decision_digest": digest(res["decisions"]), "abstract_digest": abstract,
         "both_inside": res["both_inside_switches"],
         "switch_sites": sorted({s[3] for s in sl}), "site_pairs": sorted(pairs),
@@ -1227,17 +1287,21 @@ def sweep_groups(root: int, n_groups: int) -> list:
               ("pageby-vs-pageby", PA, PB), ("shared-components", SA, SBs), ("failing-vs-grouped", GF, GG),
               ("same-document", GG, _json.loads(_json.dumps(GG))),
               ("list-columns", LA, LB),
+              ("thread-reuse", SA, SB),
               ("multi-vs-multi", MA, MB), ("grouped-vs-single", grouped or MB, SA),
               ("figure-vs-single", FA, SB)]
     return groups[:n_groups]
 
 
+GROUP_NO_HOT = {"thread-reuse"}  # same documents as group 0: no second profile; swept by the "chain" mode only
 GROUP_SAME_DOC = {"same-document": {"1": 0}}  # thread 1 encodes the very document object of thread 0
 GROUP_SHARE = {"shared-components": [{c: c in ("footnote", "source", "title", "page_header", "page_footer")
                                        for c in SHARED_COMPONENTS}] * 2}
 
 
 def hot_job(j: dict) -> dict:
+    if j.get("name") in GROUP_NO_HOT:
+        return {"hot": {}, "hot_steps": {}, "priority_steps": {}, "component_dirty": False}
     ws = _ws()
     share = GROUP_SHARE.get(j.get("name"))
     hot = find_hot_sites(j["recipes"], ws["figdir"], share)
@@ -1291,6 +1355,20 @@ def sweep_jobs(root: int, groups: list, refcache: RefCache, specs: list, hot_inf
             continue
         name, a, b = groups[gi]
         recs = [a, b]
+        if trace_mode == "chain":
+            # pooled workers: thread 0 encodes x and then an equal-valued copy of y, thread 1 encodes y.  The switch
+            # happens when thread 0 picks up its second document; thread 1 then runs j2 boundaries (or to the end)
+            for (x, y, tag) in ((a, b, 0), (b, a, 1)):
+                ky = refcache.get(y).get("ncalls") or 0
+                for j2 in [None] + list(range(1 + stride // 2, ky + 1, stride)):
+                    plan = {"recipes": [x, y, R_json_copy(y)], "chain": {"0": [2]}, "decider": {"kind": "sweep"},
+                            "first": 0, "trace_mode": "call", "decisions": [],
+                            "chain_switch": {"to": 1, "then": [[j2, 0]] if j2 else []}, "finish_pref": [0, 1],
+                            "abort": None}
+                    jobs.append({"idx": idx, "sweep": {"group": name, "order": tag, "k": j2 or 0, "K": ky,
+                                                       "mode": "chain", "stride": stride}, "plan": plan})
+                    idx += 1
+            continue
         if trace_mode == "grid2":
             # two pre-emptions without any targeting signal: A paused at one of n1 evenly spread boundaries, B paused
             # at every stride-th boundary of its own encode, A resumes to completion, then B
@@ -1403,14 +1481,15 @@ def sweep_jobs(root: int, groups: list, refcache: RefCache, specs: list, hot_inf
 # batch
 # --------------------------------------------------------------------------
 
-TIERS = {"quick": {"runs": 320, "wall": 420.0, "groups": 10, "hot_cap": 600, "hot3_cap": 100,
+TIERS = {"quick": {"runs": 320, "wall": 420.0, "groups": 11, "hot_cap": 600, "hot3_cap": 100,
                    "cold_groups": (0, 1, 2, 4, 7, 8), "cold_cap": 150,
                    "sweeps": [(0, "call", 96), (1, "call", 96), (2, "call", 12), (3, "call", 128), (4, "call", 96),
                               (5, "call", 4096), (6, "call", 96), (7, "call", 24), (8, "call", 32), (8, "grid2", 16),
-                              (9, "call", 64), (0, "line", 768)]},
-         "thorough": {"runs": 60000, "wall": 3000.0, "groups": 13, "hot_cap": 4000, "hot3_cap": 2500,
-                      "cold_groups": tuple(range(13)), "cold_cap": 4000,
-                      "sweeps": [(i, "callret", 1) for i in range(13)] + [(i, "line", 4) for i in range(13)]
+                              (9, "call", 64), (10, "chain", 256), (0, "line", 768)]},
+         "thorough": {"runs": 60000, "wall": 3000.0, "groups": 14, "hot_cap": 4000, "hot3_cap": 2500,
+                      "cold_groups": tuple(range(14)), "cold_cap": 4000,
+                      "sweeps": [(i, "callret", 1) for i in range(14) if i != 10] + [(i, "line", 4) for i in range(14) if i != 10]
+                      + [(10, "chain", 2)]
                       + [(8, "grid2", 2), (7, "grid2", 4), (3, "grid2", 64)]}}
 
 
